@@ -73,7 +73,7 @@ def gen_dataset_cfg(rng, flavor='general', big=False):
     cfg['dtypes']['find'] = rng.choice(['uint32', 'int32', 'int64'])
     cfg['dtypes']['tmpl'] = rng.choice(['float32', 'float32', 'float64'])
     cfg['dtypes']['feat'] = rng.choice(['float32', 'float32', 'float64'])
-    cfg['dtypes']['amps'] = rng.choice(['float64', 'float64', 'float32'])
+    cfg['dtypes']['amps'] = rng.choice(['float64', 'float64', 'float32', 'float16', '>f8', '>f4'])
     cfg['dtypes']['pos'] = rng.choice(['float64', 'float64', 'float32', 'int64', 'uint16', 'uint32', 'int16'])
     cfg['dtypes']['wm'] = rng.choice(['float64', 'float64', 'float32'])
     # size outliers: hidden constants (neighbourhood 12/32, uint8/int16 id ranges, batch sizes)
@@ -679,6 +679,10 @@ def snapshot(d):
             rel = str(p.relative_to(d))
             if p.is_symlink():
                 out[rel] = 'symlink->' + os.path.basename(os.readlink(str(p)))
+                try:    # ... and what it points to: writing THROUGH the link changes the "file"
+                    out[rel] += ':' + hashlib.sha256(p.read_bytes()).hexdigest()[:24]
+                except OSError:
+                    pass
                 continue
             out[rel] = hashlib.sha256(p.read_bytes()).hexdigest()[:24]
     return out
